@@ -45,6 +45,7 @@ type refConn struct {
 	dispatch int    // requests that must have been dispatched so far
 	hold     bool   // handlers do not return until released
 	sawCont  bool
+	win      [2]int64 // the streams' send windows as the peer has set them
 }
 
 // reaction classes
@@ -65,10 +66,8 @@ const (
 	fkData               // DATA, 1 byte
 	fkDataES             // DATA, 1 byte, END_STREAM
 	fkRst                // RST_STREAM(CANCEL)
-	fkWU                 // WINDOW_UPDATE(1)
-	fkWU0                // WINDOW_UPDATE(0)
-	fkPrio               // PRIORITY depending on stream 0
-	fkPrioSelf           // PRIORITY depending on itself
+	fkWU                 // WINDOW_UPDATE with an arbitrary 31-bit increment
+	fkPrio               // PRIORITY with an arbitrary 31-bit dependency and weight
 	fkPing0              // PING on stream 0
 	fkSettings0          // empty SETTINGS on stream 0
 	fkWUConn             // WINDOW_UPDATE(1) on stream 0
@@ -77,7 +76,7 @@ const (
 
 // refStep: what RFC 7540 allows as the server's reaction to frame kind k on
 // stream id (1 or 3) and the error code it must carry (0: any of the listed).
-func (c *refConn) refStep(k int, id uint32) (allowed int, code ErrorCode) {
+func (c *refConn) refStep(k int, id uint32, arg uint32) (allowed int, code ErrorCode) {
 	i := int(id / 2)
 	s := &c.s[i]
 	if c.dead {
@@ -190,7 +189,7 @@ func (c *refConn) refStep(k int, id uint32) (allowed int, code ErrorCode) {
 		}
 		s.st, s.byReset = rsClosed, true
 		return rxNone, 0
-	case fkWU, fkWU0:
+	case fkWU:
 		if s.implicit {
 			return rxNone | rxStreamErr | rxConnErr, 0
 		}
@@ -199,22 +198,26 @@ func (c *refConn) refStep(k int, id uint32) (allowed int, code ErrorCode) {
 			return rxConnErr, ProtocolError
 		}
 		if s.st == rsClosed {
-			return rxNone, 0 // 5.1: may arrive for a short period after closing
+			return rxNone | rxStreamErr | rxConnErr, 0 // 5.1: may arrive for a short period after closing
 		}
-		if k == fkWU0 {
+		if arg == 0 { // 6.9: an increment of 0 is a stream error
 			s.st, s.byReset = rsClosed, true
-			c.maybeDead()
 			return rxStreamErr | rxConnErr, ProtocolError
 		}
+		if int64(c.win[int(id/2)])+int64(arg) > 1<<31-1 { // 6.9.1
+			s.st, s.byReset = rsClosed, true
+			return rxStreamErr | rxConnErr, FlowControlError
+		}
+		c.win[int(id/2)] += int64(arg)
 		return rxNone, 0
 	case fkPrio:
-		return rxNone, 0 // PRIORITY is allowed in every state (5.1, 6.3)
-	case fkPrioSelf:
+		if arg != id {
+			return rxNone, 0 // PRIORITY is allowed in every state (5.1, 6.3)
+		}
 		if s.st != rsIdle && s.st != rsClosed {
 			s.st, s.byReset = rsClosed, true
 		}
-		c.maybeDead()
-		return rxStreamErr | rxConnErr, ProtocolError // 5.3.1
+		return rxStreamErr | rxConnErr, ProtocolError // 5.3.1: a stream cannot depend on itself
 	}
 	return rxNone, 0
 }
@@ -239,7 +242,7 @@ func (c *refConn) finishMessage(s *refStream) (int, ErrorCode) {
 // vTrailer is a header block with one regular field, for trailer sections.
 var vTrailer = []byte{0x00, 0x01, 'a', 0x01, 'b'}
 
-func vKindFrame(k int, id uint32, digit byte, trailer bool) []byte {
+func vKindFrame(k int, id uint32, digit byte, trailer bool, arg uint32) []byte {
 	blk, blkGet := vBlock(true, digit), vBlock(false, digit)
 	if trailer {
 		blk, blkGet = vTrailer, vTrailer
@@ -256,17 +259,15 @@ func vKindFrame(k int, id uint32, digit byte, trailer bool) []byte {
 	case fkCont:
 		return vFrame(0x9, 0x4, id, nil)
 	case fkData:
-		return vFrame(0x0, 0x0, id, []byte{'x'})
+		return vFrame(0x0, 0x0, id, []byte{vU8()})
 	case fkDataES:
-		return vFrame(0x0, 0x1, id, []byte{'y'})
+		return vFrame(0x0, 0x1, id, []byte{vU8()})
 	case fkRst:
-		return vFrame(0x3, 0x0, id, []byte{0, 0, 0, 8})
+		return vFrame(0x3, 0x0, id, []byte{byte(arg >> 24), byte(arg >> 16), byte(arg >> 8), byte(arg)})
 	case fkWU:
-		return vFrame(0x8, 0x0, id, []byte{0, 0, 0, 1})
-	case fkWU0:
-		return vFrame(0x8, 0x0, id, []byte{0, 0, 0, 0})
+		return vFrame(0x8, 0x0, id, []byte{byte(arg >> 24), byte(arg >> 16), byte(arg >> 8), byte(arg)})
 	case fkPrio:
-		return vFrame(0x2, 0x0, id, []byte{0, 0, 0, 0, 7})
+		return vFrame(0x2, 0x0, id, []byte{byte(arg >> 24), byte(arg >> 16), byte(arg >> 8), byte(arg), vU8()})
 	case fkPing0:
 		return vFrame(0x6, 0x0, 0, []byte{1, 2, 3, 4, 5, 6, 7, 8})
 	case fkSettings0:
@@ -274,14 +275,15 @@ func vKindFrame(k int, id uint32, digit byte, trailer bool) []byte {
 	case fkWUConn:
 		return vFrame(0x8, 0x0, 0, []byte{0, 0, 0, 1})
 	default:
-		return vFrame(0x2, 0x0, id, []byte{byte(id >> 24), byte(id >> 16), byte(id >> 8), byte(id), 7})
+		return vFrame(0x8, 0x0, 0, []byte{0, 0, 0, 1})
 	}
 }
 
-// Every sequence of 3 (quick) / 4 (thorough) frames drawn from fifteen kinds
+// Every sequence of 3 (quick) / 4 (thorough) frames drawn from thirteen kinds
 // (HEADERS with every combination of END_STREAM and END_HEADERS, CONTINUATION, DATA with
-// and without END_STREAM, RST_STREAM, WINDOW_UPDATE of 1 and of 0, PRIORITY,
-// self-dependent PRIORITY, and PING, SETTINGS and WINDOW_UPDATE on stream 0) on streams 1 and 3, through the real read loop,
+// and without END_STREAM, RST_STREAM with any code, WINDOW_UPDATE with any 31-bit increment, PRIORITY
+// with any dependency and weight - all with an arbitrary reserved bit, DATA with
+// an arbitrary byte - and PING, SETTINGS and WINDOW_UPDATE on stream 0) on streams 1 and 3, through the real read loop,
 // stream loop and handlers: after each frame the server's reaction (nothing,
 // a response, RST_STREAM, GOAWAY) is one RFC 7540 5.1/6.x allows in that
 // stream state, with the error code the RFC names, with handlers that return
@@ -292,15 +294,22 @@ func vKindFrame(k int, id uint32, digit byte, trailer bool) []byte {
 //verif:harness prop=C08 unwind=64 timeout=900 timeoutT=3000 maxstates=3000000
 func VerifH_C08_seq() {
 	s := vStartServer(8)
-	ref := &refConn{hold: vBool()}
+	ref := &refConn{hold: vBool(), win: [2]int64{65535, 65535}}
 	s.hold = ref.hold
 	n := vPick(3, 4)
 	for i := 0; i < n; i++ {
 		k := vRange(0, fkCount-1)
 		id := uint32(1 + 2*vRange(0, 1))
 		trailer := ref.s[int(id/2)].hdrsDone
-		allowed, code := ref.refStep(k, id)
-		s.send(vKindFrame(k, id, byte('0'+id), trailer))
+		// the frame's 32-bit field (window increment, stream dependency, error
+		// code) is arbitrary; the reserved top bit is arbitrary as well
+		raw := vU32()
+		arg := raw & (1<<31 - 1)
+		if k == fkRst {
+			arg = raw
+		}
+		allowed, code := ref.refStep(k, id, arg)
+		s.send(vKindFrame(k, id, byte('0'+id), trailer, raw))
 		r := vClassify(s.replies())
 		got := rxNone
 		switch {
